@@ -40,7 +40,7 @@ Section Lib.
         match id with
         | 0%N => VL (rev l)
         | 1%N => VL (firstn 3 l)
-        | _ => VL (map Z.abs l)
+        | _ => VL (l ++ [0])
         end
     end.
 
